@@ -11,7 +11,7 @@ from fractions import Fraction
 import numpy as np
 from hypothesis import strategies as st
 
-from ..core import Given
+from ..core import Given, Enum
 from ..findings import is_open
 
 from raysect.core.math import Vector3D
@@ -60,6 +60,9 @@ RULE = ("Wrapped object = recording callable c3 + c0*asinh(x) + c1*asinh(y) + c2
         "classes whose dimensions fit (same class with other parameters - non-commuting swizzle shapes, overlapping clamps, "
         "other periods - or a different class; scalar and vector chains) and compares the innermost recorded argument and the "
         "value with the composition of the two mappings. "
+        "CLAMP_SUBSETS (enumerated, not sampled): every subset of the optional bounds of the 6 clamp classes "
+        "(4+16+64 input, 3x4 output, prefixes also positionally), all other bounds defaulted, at all 5^dim combinations of points "
+        "below / on / inside / on / above each bound. "
         "RE-USE: every wrapper instance is evaluated twice in a row at each of 1-3 "
         "points and then again at the first point (value and inner argument must repeat bit for bit); every mask is evaluated "
         "forward, backward and twice in a row per point; every sampler is called twice (first result intact, equal, no shared "
@@ -124,6 +127,11 @@ REQUIRED_LABELS = [l for l in [
     # persistent-object flavour of wrapped vector functions (one stored Vector3D handed out on every call)
     "cyl:wf:stored", "cyl:wf:const", "periodic:wf:stored", "periodic:wf:const", "samplers:wf:stored", "samplers:wf:const",
     "periodic:persistent", "samplers:persistent",
+    # every subset of the optional clamp bounds (enumerated)
+    "clamp_subsets:ClampInput2D:1-of-4-bounds", "clamp_subsets:ClampInput2D:2-of-4-bounds", "clamp_subsets:ClampInput3D:1-of-6-bounds",
+    "clamp_subsets:ClampInput1D:1-of-2-bounds", "clamp_subsets:ClampOutput3D:1-of-2-bounds", "clamp_subsets:ClampInput3D:0-of-6-bounds",
+    "clamp_subsets:positional", "clamp_subsets:keyword", "clamp_subsets:out:below-inside-above",
+    "clamp_subsets:ClampInput1D", "clamp_subsets:ClampInput2D", "clamp_subsets:ClampInput3D", "clamp_subsets:ClampOutput1D", "clamp_subsets:ClampOutput2D", "clamp_subsets:ClampOutput3D",
     # wrappers wrapping wrappers
     "nested:same-class", "nested:mixed", "nested:swizzle-noncommuting", "nested:reuse",
     "cyl:VectorCylindricalTransform:persistent:phi!=0-twice", "cyl:VectorAxisymmetricMapper:persistent:phi!=0-twice",
@@ -1610,6 +1618,69 @@ def run_nested(case, ctx):
     _again(ctx, w, f, first, "%s(%s(f))" % (c1, c2))
 
 
+# ================================================================================================ clamp_subsets
+# Deterministic sweep: every subset of the optional bounds of every clamp class (all other bounds left to their defaults),
+# at every combination of points below / on / inside / on / above each bound.  Oracle = the exact clamp.
+_CS_LIMS = [[-1.5, 2.25], [-0.75, 3.5], [0.1, 1234.5678]]
+_CS_CO = [1.0, 10.0, 100.0, 0.25]
+_CS_OUT = [-40.0, 55.5]
+
+
+def clamp_subset_cases(tier):
+    for io in ("in", "out"):
+        for dim in (1, 2, 3):
+            nb = 2 * dim if io == "in" else 2
+            for mask in range(1 << nb):
+                for pos in ((False, True) if mask == (1 << nb) - 1 or _leading(mask, nb) else (False,)):
+                    yield {"io": io, "dim": dim, "mask": mask, "pos": pos}
+
+
+def _leading(mask, nb):
+    """the given bounds form a prefix of the parameter list (so that they can be passed positionally)"""
+    return mask != 0 and (mask & (mask + 1)) == 0
+
+
+def run_clamp_subsets(case, ctx):
+    io, dim, mask, pos = case["io"], int(case["dim"]), int(case["mask"]), bool(case.get("pos"))
+    name = ("ClampInput%dD" if io == "in" else "ClampOutput%dD") % dim
+    names = [n for pair in (_IN_NAMES[:dim] if io == "in" else [("min", "max")]) for n in pair]
+    vals = [v for l in (_CS_LIMS[:dim] if io == "in" else [_CS_OUT]) for v in l]
+    given = [bool(mask >> i & 1) for i in range(len(names))]
+    lims = [[vals[2 * a] if given[2 * a] else None, vals[2 * a + 1] if given[2 * a + 1] else None] for a in range(len(names) // 2)]
+    ctx.label(name, "%s:%d-of-%d-bounds" % (name, sum(given), len(names)), "positional" if pos else "keyword")
+    ctx.nt()
+    f = Rec(_CS_CO)
+    with ctx.cut("construct"):
+        if pos:
+            w = getattr(M, name)(f, *[v for v, g in zip(vals, given) if g])
+        else:
+            w = getattr(M, name)(f, **{n: v for n, v, g in zip(names, vals, given) if g})
+    if io == "in":
+        axes = [[lo - 1.0, lo, 0.5 * (lo + hi), hi, hi + 1.0] for lo, hi in _CS_LIMS[:dim]]
+    else:
+        axes = [[-3.0, -0.5, 0.0, 0.5, 3.0]] * dim
+    seen = set()
+    for idx in np.ndindex(*[len(a) for a in axes]):
+        p = [axes[d][idx[d]] for d in range(dim)]
+        f.calls.clear()
+        with ctx.cut("call"):
+            got = w(*p)
+        fa = _one_call(ctx, f, "inner")
+        if io == "in":
+            want_args = [_clampv(p[i], lims[i][0], lims[i][1]) for i in range(dim)]
+            want = f.value(tuple(want_args))
+        else:
+            want_args = p
+            raw = f.value(tuple(p))
+            want = _clampv(raw, lims[0][0], lims[0][1])
+            seen.add("below" if raw < _CS_OUT[0] else "above" if raw > _CS_OUT[1] else "inside")
+        _expect_args(ctx, fa, want_args, "inner", "%s bounds given %r at %r" % (name, {n: v for n, v, g in zip(names, vals, given) if g}, p))
+        ctx.check(got == want, "value", lambda: "%s bounds given %r at %r = %r, expected %r"
+                  % (name, {n: v for n, v, g in zip(names, vals, given) if g}, p, got, want))
+    if io == "out" and seen == {"below", "inside", "above"}:
+        ctx.label("out:below-inside-above")
+
+
 SUBCHECKS = {
     "iso": Given(iso_strategy, run_iso, quick=600, thorough=15000),
     "swizzle": Given(swizzle_strategy, run_swizzle, quick=600, thorough=15000),
@@ -1620,4 +1691,5 @@ SUBCHECKS = {
     "mask": Given(mask_strategy, run_mask, quick=1200, thorough=40000),
     "samplers": Given(samplers_strategy, run_samplers, quick=1600, thorough=45000),
     "nested": Given(nested_strategy, run_nested, quick=2400, thorough=60000),
+    "clamp_subsets": Enum(clamp_subset_cases, run_clamp_subsets),
 }
